@@ -359,6 +359,15 @@ def finish(prop, tier, t0, cov, violations, known, broken):
         broken += rbroken
         for pred, detail, path in rviol:
             violations.append(({"op": "readrace", "pre": "", "field": pred, "want": "", "got": str(detail)[:300], "cfg": None}, path))
+    if prop == "C20" and not broken:
+        # load statistics under shared flights: loads recorded = loader invocations (LoadHist.tla over gate-scheduled histories)
+        import loadcheck
+        lcov, lviol, lbroken = loadcheck.run("C20", tier, None, collect_only=True)
+        cov["load_histories"] = lcov["traces_validated_against_impl"]
+        cov["traces_validated_against_impl"] += lcov["traces_validated_against_impl"]
+        broken += lbroken
+        for x, sc, path in lviol:
+            violations.append(({"op": "concurrent", "pre": "", "field": x["pred"], "want": "", "got": str(x["detail"])[:300], "cfg": None}, path))
     if prop == "C05" and not broken:
         # a write finds the entry expired while a reader extends the deadline of the node being replaced (SweepHist.tla)
         import c13check
